@@ -52,8 +52,9 @@ func vRoutesHub(h *verifh.H, core *security.ServiceCore) *echo.Echo {
 	env := hub.Env
 	env.AdminUserName, env.AdminPassword, env.Port = "admin", "secret", "0"
 	env.Auth = &conf.AuthConfig{Middleware: "local", WellKnown: "https://auth.example.invalid/jwks.json"}
+	tp := security.NewTokenProviders(zap.NewNop().Sugar(), security.NewProviderManager(env, hub.Store, zap.NewNop().Sugar()), core)
 	ws, err := NewWebService(&ServiceContext{Env: env, Logger: zap.NewNop().Sugar(), SecurityCore: core, Port: "0", Statsd: &statsd.NoOpClient{},
-		Store: hub.Store, DatasetManager: hub.Dsm, EventBus: server.NoOpBus()})
+		Store: hub.Store, DatasetManager: hub.Dsm, EventBus: server.NoOpBus(), TokenProviders: tp})
 	if err != nil {
 		panic(err)
 	}
@@ -110,7 +111,8 @@ func VerifC16Routes(h *verifh.H) {
 	// 0 no token, 1 a token the JWT middleware must reject, 2 valid token without ACL,
 	// 3 valid token + a read grant on exactly this path, 4 valid token + a write grant,
 	// 5 valid token + a write grant and a matching deny
-	caller := h.Choice("caller", 6)
+	// 6 valid token + a write grant on everything and a deny on exactly this path
+	caller := h.Choice("caller", 7)
 	hdr := http.Header{}
 	var acls []*security.AccessControl
 	if caller != 0 {
@@ -135,10 +137,24 @@ func VerifC16Routes(h *verifh.H) {
 			acls = append(acls, &security.AccessControl{Resource: path, Action: "write"})
 		case 5:
 			acls = append(acls, &security.AccessControl{Resource: path, Action: "write"}, &security.AccessControl{Resource: "/*", Action: "write", Deny: true})
+		case 6:
+			acls = append(acls, &security.AccessControl{Resource: "/*", Action: "write"}, &security.AccessControl{Resource: path, Action: "write", Deny: true})
 		}
 		if caller >= 3 {
 			core.SetClientAccessControls("client-1", acls)
 		}
+	}
+	// the oracle is evaluated on the ACL as it was set (a copy: nothing a request does may change it)
+	var asSet []*security.AccessControl
+	for _, ac := range acls {
+		c := *ac
+		asSet = append(asSet, &c)
+	}
+	if caller >= 3 && h.Choice("listFirst", 2) == 1 {
+		// the same client first lists the datasets (the listing is filtered by its ACL); what it may
+		// do afterwards is still decided by the ACL as it was set
+		lw := &vRW{hdr: http.Header{}}
+		e.ServeHTTP(lw, &http.Request{Method: "GET", URL: &url.URL{Path: "/datasets"}, Header: hdr, Host: "hub", RequestURI: "/datasets", Proto: "HTTP/1.1", Body: vBody{strings.NewReader("")}})
 	}
 	req := &http.Request{Method: method, URL: &url.URL{Path: path}, Header: hdr, Host: "hub", RequestURI: path, Proto: "HTTP/1.1", Body: vBody{strings.NewReader("{}")}}
 	w := &vRW{hdr: http.Header{}}
@@ -149,7 +165,7 @@ func VerifC16Routes(h *verifh.H) {
 	open := path == "/health" || path == "/" || path == "/security/token"
 	granted := false
 	if caller >= 2 {
-		granted = vGrants(h, acls, path, method)
+		granted = vGrants(h, asSet, path, method)
 	}
 	where := " :: " + method + " " + pick.Path
 	if open {
